@@ -214,6 +214,8 @@ func depReadable(op string, a []string) string {
 	switch op {
 	case "depparse", "deprt", "law-deprt", "archparse", "archrt", "law-archrt", "archlist":
 		return fmt.Sprintf("%s(%q)", op, core.MustUnHex(a[0]))
+	case "law-depast":
+		return fmt.Sprintf("Parse(%q) must denote %s", core.MustUnHex(a[0]), core.MustUnHex(a[1]))
 	case "possis":
 		return fmt.Sprintf("GetPossibilities(Parse(%q), ParseArch(%q))", core.MustUnHex(a[0]), core.MustUnHex(a[1]))
 	case "satisfied":
@@ -652,19 +654,24 @@ func init() {
 		"parsePossibilityArch", "parsePossibilityStageSet", "parsePossibilityStage", "parseArchInto", "ParseArch"} {
 		depFacts = append(depFacts, "fingerprint:dependency."+n)
 	}
+	depCaseFacts := []string{"dependency.parser:accumulation", "dependency.parsePossibilityOperator:cases"}
+	for _, n := range []string{"eatWhitespace", "parseDependency", "parseRelation", "parsePossibility", "parseSubstvar", "parseMultiarch",
+		"parsePossibilityControllers", "parsePossibilityNumber", "parsePossibilityArchs", "parsePossibilityArch", "parsePossibilityStageSet", "parsePossibilityStage"} {
+		depCaseFacts = append(depCaseFacts, "dependency."+n+":cases")
+	}
 	strFacts := []string{"fingerprint:dependency.Arch.String", "fingerprint:dependency.ArchSet.String", "fingerprint:dependency.VersionRelation.String",
 		"fingerprint:dependency.Stage.String", "fingerprint:dependency.StageSet.String", "fingerprint:dependency.Possibility.String",
 		"fingerprint:dependency.Relation.String", "fingerprint:dependency.Dependency.String"}
 	core.Register(&core.Property{
 		ID: "C04", PropsModule: "GoDebian.Props.C04", TieModule: "GoDebian.Tie.Dependency",
-		Facts: append(append([]string{}, depFacts...), "dependency.parser:switches"),
+		Facts: append(append([]string{}, depFacts...), depCaseFacts...),
 		Streams: []core.Stream{{Name: "depparse", Gen: streamDepparse,
 			Domain: "dependency ASTs (1-5 relations, 1-3 alternatives, every subset of qualifier/version/arch list/profile groups, substvars) rendered in four layouts (minimal, canonical, random legal white space incl. tabs/CR/LF, folded field), with the clause order shuffled; single-edit corruptions (deleted closer, truncation, inserted/replaced special byte, duplicated clause, control/high bytes); raw strings over the special bytes; observable: canonical dump of the parsed structure or err; law-depast: the implementation's parse equals the AST that was rendered"}},
 		Impl: depImpl, Readable: depReadable, TrustedBase: tb,
 	})
 	core.Register(&core.Property{
 		ID: "C05", PropsModule: "GoDebian.Props.C05", TieModule: "GoDebian.Tie.Dependency",
-		Facts: append(append(append([]string{}, depFacts...), strFacts...), "dependency.parser:switches"),
+		Facts: append(append(append([]string{}, depFacts...), strFacts...), depCaseFacts...),
 		Streams: []core.Stream{
 			{Name: "depparse", Gen: streamDepparse, Domain: "as C04; for every accepted string: rendering, structure after re-parse (model vs implementation) and the fixpoint law on the implementation (law-deprt)"},
 			{Name: "arch", Gen: streamArch, Domain: "all architecture names of 1-3 parts (thorough: 1-4) over {any, all, gnu, linux, musl, kfreebsd, amd64, x, \"\"}, random names, String() on arbitrary triples, ParseArchitectures lists; parse/render/re-parse on model and implementation plus the fixpoint law"}},
@@ -674,7 +681,7 @@ func init() {
 		ID: "C06", PropsModule: "GoDebian.Props.C06", TieModule: "GoDebian.Tie.Dependency",
 		Facts: []string{"fingerprint:dependency.Arch.Is", "fingerprint:dependency.Arch.IsWildcard", "fingerprint:dependency.ArchSet.Matches",
 			"fingerprint:dependency.Dependency.GetPossibilities", "fingerprint:dependency.Dependency.GetAllPossibilities",
-			"fingerprint:dependency.Dependency.GetSubstvars", "fingerprint:dependency.VersionRelation.SatisfiedBy", "dependency.SatisfiedBy:table"},
+			"fingerprint:dependency.Dependency.GetSubstvars", "fingerprint:dependency.VersionRelation.SatisfiedBy", "dependency.SatisfiedBy:cases", "dependency.SatisfiedBy:returns"},
 		Streams: []core.Stream{{Name: "archsem", Gen: streamArchsem,
 			Domain: "exhaustive: all 125x125 pairs of (abi, os, cpu) over {any, all, a, b, c} for Is (incl. outside the Debian domain, where only model = implementation is compared); architecture lists of 0-3 entries x negation x architecture; random dependency fields x architectures for GetPossibilities/GetAllPossibilities/GetSubstvars; (op, N, V) with V == N, neighbours of N, unparsable N, unknown operators"}},
 		Impl: depImpl, Readable: depReadable, TrustedBase: tb,
